@@ -39,7 +39,22 @@ def streams_for(size: str) -> list:
         raws = jwire.split_delimited(e["data"])
         if len(raws) == 1:
             extra.append({**e, "name": e["name"] + "/nondelim", "data": raws[0]})
-    return out + extra + [noise_stream(), huge_frame_stream()]
+    return out + extra + [noise_stream(), huge_frame_stream(), growing_frames_stream()]
+
+
+def growing_frames_stream() -> dict:
+    """Several frames above 64 KiB, each later one more than twice the size of all earlier ones
+    (and smaller ones in between): reusable buffers must grow to what is asked for."""
+    from mc import drivers as DR  # noqa: PLC0415
+    from mc.terms import I, L  # noqa: PLC0415
+
+    seq = [(I("http://h/s"), I("http://h/p"), L("y" * n))
+           for n in (10, 70_000, 20, 200_000, 66_000, 450_000, 5)]
+    data = DR.g_write(seq, "triple", DR.make_options("triple", (16, 4, 4), 1, True))
+    e = corpus._entry("growing-frames/triple", "triple", data, True)
+    e["big"] = True
+    e["file_only"] = True
+    return e
 
 
 def huge_frame_stream() -> dict:
